@@ -77,6 +77,10 @@ func load(s *state.Store) *tables {
 
 type finding struct{ key, what string }
 
+// tgwAdvertising counts walker visits in which a terminating-gateway instance advertised at least
+// one per-service virtual IP (coverage only)
+var tgwAdvertising int
+
 func check(s *state.Store, t *tables) []finding {
 	var out []finding
 	add := func(key, f string, a ...any) { out = append(out, finding{key, fmt.Sprintf(f, a...)}) }
@@ -279,6 +283,55 @@ func check(s *state.Store, t *tables) []finding {
 			}
 		}
 	}
+	// terminating-gateway instances advertise one virtual IP per linked service ("consul-virtual:<name>")
+	for _, sv := range t.services {
+		if sv.ServiceKind != structs.ServiceKindTerminatingGateway || sv.PeerName != "" {
+			continue
+		}
+		var keys []string
+		for k := range sv.ServiceTaggedAddresses {
+			if strings.HasPrefix(k, structs.TaggedAddressVirtualIP+":") {
+				keys = append(keys, k)
+			}
+		}
+		sort.Strings(keys)
+		if len(keys) > 0 {
+			tgwAdvertising++
+		}
+		for _, k := range keys {
+			name := strings.TrimPrefix(k, structs.TaggedAddressVirtualIP+":")
+			ta := sv.ServiceTaggedAddresses[k]
+			// does the gateway's CURRENT config entry still link that service?
+			linked := "no-longer-linked"
+			for _, ce := range t.configs {
+				if tg, ok := ce.(*structs.TerminatingGatewayConfigEntry); ok && tg.Name == sv.ServiceName {
+					explicit, wild := false, false
+					for _, ls := range tg.Services {
+						if ls.Name == name {
+							explicit = true
+						}
+						if ls.Name == structs.WildcardSpecifier {
+							wild = true
+						}
+					}
+					switch {
+					case wild:
+						linked = "linked-by-entry-with-wildcard"
+					case explicit:
+						linked = "linked-explicitly"
+					}
+				}
+			}
+			v, ok := assigned["|"+name]
+			if !ok {
+				add("C07:vip:gateway-advertised-but-unassigned:"+linked, "terminating gateway instance %s/%s advertises virtual IP %s for service %q (%s by its config entry) which has no assignment", sv.Node, sv.ServiceID, ta.Address, name, linked)
+				continue
+			}
+			if cur, err := v.IPWithOffset(); err == nil && cur != ta.Address {
+				add("C07:vip:gateway-advertised-differs:"+linked, "terminating gateway instance %s/%s advertises virtual IP %s for service %q (%s by its config entry) which is assigned %s", sv.Node, sv.ServiceID, ta.Address, name, linked, cur)
+			}
+		}
+	}
 	for _, sv := range t.services {
 		ta, ok := sv.ServiceTaggedAddresses[structs.TaggedAddressVirtualIP]
 		if !ok {
@@ -332,6 +385,9 @@ func TestZZVerifC07(t *testing.T) {
 		if h%3 != 0 {
 			prelude = gen.VIPPrelude()
 		}
+		if h%4 == 3 {
+			prelude = gen.GatewayPrelude()
+		}
 		situations := map[string]bool{}
 		reported := map[string]bool{}
 		for i := 0; i < ln; i++ {
@@ -376,6 +432,7 @@ func TestZZVerifC07(t *testing.T) {
 		run.Eval()
 		r.Close()
 	}
+	run.CountN("walks-with-gateway-advertised-vip", tgwAdvertising)
 	for _, s := range []string{"last-instance-removed", "node-removed-with-services", "two-proxies-share-upstream", "proxy-removed-after-service", "node-renamed-by-id", "vip-assigned", "vip-freed"} {
 		run.Floor("situation:"+s, 5)
 	}
